@@ -96,6 +96,15 @@ class TokModel:
                             lit = l_
                     out.append(("re", lit, (b, lab)))
                 continue
+            implied = I.call_implied_relations(self.F, tt, tr)
+            if implied:
+                for (op, x, y) in implied:
+                    rx, ry = self.rank_pos(x), self.rank_pos(y)
+                    if rx is not None and ry is not None:
+                        out.append(("ranks", op, rx, ry, (b, lab)))
+                    else:
+                        out.append(("other", f"{op}({P.show(x)[:30]}, {P.show(y)[:30]}) via {tt[1]}", tr))
+                continue
             rel = I.norm_rel(tt, tr)
             if rel is None:
                 out.append(("other", P.show(tt)[:80], tr))
@@ -174,7 +183,7 @@ class TokModel:
     def rank_rel_edges(self, pos_a, pos_b, want):
         """edges implying rank(pos_a) `want` rank(pos_b) (ranks parsed from one-byte slices)"""
         return I.edges_implying(self.fn, self.pr, want, lambda t: self.rank_pos(t) == pos_a, lambda t: self.rank_pos(t) == pos_b,
-                                strip=False)
+                                strip=False, F=self.F)
 
     def slice_ne_edges(self, pos_a, pos_b):
         out = []
